@@ -183,12 +183,11 @@ impl Executor for IndexScan {
                 table_tree.search(row_key_bytes.as_ref(), &self.table_schema)?;
 
             if let SearchResult::Found(found_pos) = actual_row_result {
-                let actual_row = tree
-                    .get_row_at(found_pos, &self.table_schema, &snapshot)?
-                    .filter(|r| {
-                        self.evaluate_residual_predicate(r)
-                            .expect("Predicate evaluation failed")
-                    });
+                // An error of the residual predicate (division by zero, overflow) is the statement's error.
+                let actual_row = match tree.get_row_at(found_pos, &self.table_schema, &snapshot)? {
+                    Some(row) if self.evaluate_residual_predicate(&row)? => Some(row),
+                    _ => None,
+                };
 
                 if actual_row.is_none() {
                     continue;
